@@ -87,6 +87,7 @@ theorem runBody_keeps (U : Universe) (s : St) (x g : Gen) (d : Int) : Keeps g d 
       split
       · exact (k0.trans k1).trans (push_keeps _ _ g d rfl)
       · exact (k0.trans k1).trans ⟨by simp [nStart, List.countP_cons, isStarted], fun hm => .inl hm⟩
+      · exact (k0.trans k1).trans ⟨by simp [nStart, List.countP_cons, isStarted], fun hm => .inl hm⟩
 
 theorem afterBody_keeps (b : St × Next) (x : Gen) (p : Nat) (g : Gen) (d : Int) :
     Keeps g d b.1 (afterBody b x p) := by
@@ -96,8 +97,9 @@ theorem afterBody_keeps (b : St × Next) (x : Gen) (p : Nat) (g : Gen) (d : Int)
   · split
     · exact ⟨by simp [nStart, pauseHead], fun hm => .inl (by simp [pauseHead, hm])⟩
     · exact Keeps.of_eq rfl rfl
+  · exact Keeps.refl g d _
 
-theorem turn_keeps (U : Universe) {c : St} (I : Inv c) {x : Gen} {pend : List Gen}
+theorem turn_keeps (U : Universe) [NoRaise U] {c : St} (I : Inv c) {x : Gen} {pend : List Gen}
     {done : List (Option Gen)} (h : Split c (x :: pend) done) (g : Gen) (d : Int) :
     Keeps g d c (turn U c) := by
   obtain ⟨_, hc⟩ := turn_cases U I h
@@ -105,7 +107,7 @@ theorem turn_keeps (U : Universe) {c : St} (I : Inv c) {x : Gen} {pend : List Ge
   · rw [ht]; exact Keeps.of_eq rfl rfl
   · rw [ht]; exact (runBody_keeps U c x g d).trans (afterBody_keeps _ x p g d)
 
-theorem turns_keeps (U : Universe) {c : St} (I : Inv c) {before rest : List Gen}
+theorem turns_keeps (U : Universe) [NoRaise U] {c : St} (I : Inv c) {before rest : List Gen}
     {done : List (Option Gen)} (h : Split c (before ++ rest) done) (g : Gen) (d : Int) :
     Keeps g d c (turns U before.length c) :=
   (turns_rel U (Keeps g d) (Keeps.refl g d) (fun _ _ _ => Keeps.trans) (before := before)
@@ -178,7 +180,7 @@ theorem Inv.not_active_of_waiting {s : St} (I : Inv s) {g : Gen} {d : Int}
 /-- **never earlier.**  A frame whose dt does not bring the clock up to the deadline leaves the
 record where it is (unless the generator is started again), advances the clock by exactly dt and
 does not run the generator. -/
-theorem process_not_due (U : Universe) {s : St} (T : Top s) (dt : Int) (hint : List Gen) {g : Gen}
+theorem process_not_due (U : Universe) [NoRaise U] {s : St} (T : Top s) (dt : Int) (hint : List Gen) {g : Gen}
     {d : Int} (hm : (⟨some g, d⟩ : Rec) ∈ s.waiting) (hd : s.timer + dt < d) :
     (process U s dt hint).1.timer = s.timer + dt ∧ Keeps g d s (process U s dt hint).1 ∧
     (process U s dt hint).1.pc g = s.pc g := by
@@ -204,7 +206,8 @@ theorem process_not_due (U : Universe) {s : St} (T : Top s) (dt : Int) (hint : L
 
 theorem runBody_next (U : Universe) {s : St} {g : Gen} {st : Step} (hc : hasCode U s g)
     (hs : curStep U s g = some st) :
-    (runBody U s g).2 = (match st.fin with | .yield w => Next.yield w | .ret v => Next.stop v) := by
+    (runBody U s g).2 = (match st.fin with
+      | .yield w => Next.yield w | .ret v => Next.stop v | .raise e => Next.crash e) := by
   unfold runBody
   unfold hasCode at hc
   unfold curStep at hs
@@ -217,7 +220,7 @@ theorem mem_rotl {α : Type} (a : α) (l : List α) : a ∈ rotl l ↔ a ∈ l :
   | cons h t => simp [rotl, or_comm]
 
 /-- `g` stays in the deque across the turn of another generator -/
-theorem turn_stays (U : Universe) {c : St} (I : Inv c) {x : Gen} {pend : List Gen}
+theorem turn_stays (U : Universe) [NoRaise U] {c : St} (I : Inv c) {x : Gen} {pend : List Gen}
     {done : List (Option Gen)} (h : Split c (x :: pend) done) {g : Gen} (hne : x ≠ g)
     (hm : some g ∈ c.active) : some g ∈ (turn U c).active := by
   have hm' : some g ∈ pend.map some ++ none :: done := by
@@ -241,7 +244,7 @@ theorem turn_stays (U : Universe) {c : St} (I : Inv c) {x : Gen} {pend : List Ge
 `w = n` leaves the record `⟨g, n + clock⟩` in the heap at the end of the frame, i.e. a remaining
 wait of exactly `n` (unless `g` is started again); anything else leaves `g` in the deque: it is
 runnable when the next frame starts. -/
-theorem process_after_yield (U : Universe) {s : St} (T : Top s) (dt : Int) (hint : List Gen)
+theorem process_after_yield (U : Universe) [NoRaise U] {s : St} (T : Top s) (dt : Int) (hint : List Gen)
     {g : Gen} {st : Step} {w : Option Int} (hr : runnableIn s dt g) (hk : s.kill g = false)
     (hcode : hasCode U s g) (hst : curStep U s g = some st) (hw : st.fin = .yield w)
     (hno : ∀ h, runnableIn s dt h → ∀ st, curStep U s h = some st → Act.kill g ∉ st.acts) :
@@ -342,7 +345,7 @@ theorem process_after_yield (U : Universe) {s : St} (T : Top s) (dt : Int) (hint
 
 /-! ### across arbitrary histories -/
 
-theorem process_mono (U : Universe) {s : St} (T : Top s) (dt : Int) (hint : List Gen) (g : Gen) :
+theorem process_mono (U : Universe) [NoRaise U] {s : St} (T : Top s) (dt : Int) (hint : List Gen) (g : Gen) :
     nStart s g ≤ nStart (process U s dt hint).1 g := by
   obtain ⟨pend, _, I1, hsp, hp⟩ := process_frame U T dt hint
   obtain ⟨_, _, wlog, _⟩ := wake_frame T.inv dt hint
@@ -353,7 +356,7 @@ theorem process_mono (U : Universe) {s : St} (T : Top s) (dt : Int) (hint : List
   simp only at this ⊢
   omega
 
-theorem execOp_mono (U : Universe) {s : St} (T : Top s) (op : Op) (g : Gen) :
+theorem execOp_mono (U : Universe) [NoRaise U] {s : St} (T : Top s) (op : Op) (g : Gen) :
     nStart s g ≤ nStart (execOp U s op) g := by
   cases op with
   | start h => exact ((start_keeps U s h g 0).trans (push_keeps _ _ g 0 rfl)).mono
@@ -364,7 +367,7 @@ theorem execOp_mono (U : Universe) {s : St} (T : Top s) (op : Op) (g : Gen) :
     simpa [execOp, nStart, St.push, List.countP_cons, isStarted] using this
   | value h => exact (push_keeps _ _ g 0 rfl).mono
 
-theorem run_mono (U : Universe) {s : St} (T : Top s) (ops : List Op) (g : Gen) :
+theorem run_mono (U : Universe) [NoRaise U] {s : St} (T : Top s) (ops : List Op) (g : Gen) :
     nStart s g ≤ nStart (run U s ops) g := by
   induction ops generalizing s with
   | nil => exact Nat.le_refl _
@@ -380,7 +383,7 @@ theorem elapsed_nonneg {ops : List Op} (h : ∀ op ∈ ops, nonnegDt op) : 0 ≤
     cases op <;> simp [elapsed, nonnegDt] at h1 ⊢ <;> omega
 
 /-- one top-level operation while the record is not due -/
-theorem execOp_not_due (U : Universe) {s : St} (T : Top s) (op : Op) {g : Gen} {d : Int}
+theorem execOp_not_due (U : Universe) [NoRaise U] {s : St} (T : Top s) (op : Op) {g : Gen} {d : Int}
     (hm : (⟨some g, d⟩ : Rec) ∈ s.waiting) (hd : s.timer + elapsed [op] < d) :
     (execOp U s op).timer = s.timer + elapsed [op] ∧ Keeps g d s (execOp U s op) ∧
     (execOp U s op).pc g = s.pc g := by
@@ -407,7 +410,7 @@ theorem execOp_not_due (U : Universe) {s : St} (T : Top s) (op : Op) {g : Gen} {
 record `⟨g, d⟩` is in the heap has not brought the clock up to `d`, and `g` has not been started
 again, the record is still there, the clock has advanced by exactly the accumulated dt, and no
 step of `g` has run. -/
-theorem wake_exact (U : Universe) {s : St} (T : Top s) (ops : List Op) {g : Gen} {d : Int}
+theorem wake_exact (U : Universe) [NoRaise U] {s : St} (T : Top s) (ops : List Op) {g : Gen} {d : Int}
     (hm : (⟨some g, d⟩ : Rec) ∈ s.waiting) (hnn : ∀ op ∈ ops, nonnegDt op)
     (hd : s.timer + elapsed ops < d) (hns : nStart (run U s ops) g = nStart s g) :
     (⟨some g, d⟩ : Rec) ∈ (run U s ops).waiting ∧ (run U s ops).timer = s.timer + elapsed ops ∧
